@@ -577,7 +577,13 @@ class Slice:
                             push_op(o)
                 else:
                     out.append(("other", rv.get("txt", k)))
+        self.last_locals = {l for l, _ in seen}
         return out
+
+    def locals(self, x):
+        """Locals whose definitions lie in the backward slice of x."""
+        self.sources(x)
+        return set(self.last_locals)
 
     def calls(self, x):
         return [(s[1], s[2]) for s in self.sources(x) if s[0] == "call"]
